@@ -548,6 +548,9 @@ class Field(BaseField):
         :param value: value to convert to a basic type
         :returns: the converted basic type
         """
+        if isinstance(value, (list, dict)):
+            # the tree must not alias the configuration's own mutable values
+            return copy.deepcopy(value)
         return value
 
 
